@@ -12,6 +12,13 @@
 (*   return   the member returned                                           *)
 (* `hold`/`release` and `touch` are folded through the occupancy automaton  *)
 (* TtyLockAbs (a touch is an enter immediately followed by an exit).        *)
+(*                                                                         *)
+(* Traces of kind "atomic" (the member's terminal accesses are ONE critical *)
+(* section - e.g. a query and the read that drains the rest of its reply):  *)
+(* nobody holds the lock; whenever thread 2 has fully released the terminal *)
+(* lock during the call (`gap`), thread 3 runs the synchronized reader      *)
+(* read_tty() to completion (`touch` by 3).  Thread 2 touching the terminal *)
+(* again after thread 3 did is a second critical section.                   *)
 (***************************************************************************)
 EXTENDS TtySync, TLC, Json, IOUtils, FiniteSets
 
@@ -19,8 +26,8 @@ Traces == JsonDeserialize(IOEnv.TRACE_FILE)
 
 ASSUME PrintT(<<"SYNCSET", ToJson(Synchronized)>>)
 
-VARIABLES tid, l, s, verdict, at, touched, waited, returned
-vars == <<tid, l, s, verdict, at, touched, waited, returned>>
+VARIABLES tid, l, s, verdict, at, touched, waited, returned, intruded
+vars == <<tid, l, s, verdict, at, touched, waited, returned, intruded>>
 
 Tr == Traces[tid]
 Ev == Tr.ev
@@ -31,10 +38,13 @@ Caller == <<0, 2>>
 Clause(st, e) ==
   IF e.k = "hold" THEN AbsEnterClause(st, Holder)
   ELSE IF e.k = "release" THEN AbsExitClause(st, Holder)
+  ELSE IF e.k = "touch" /\ e.t = 3 THEN "ok"
+  ELSE IF e.k = "touch" /\ intruded THEN
+    "not-atomic: the member released the terminal lock between two of its terminal accesses; another thread's synchronized read ran in between"
   ELSE IF e.k = "touch" THEN
     IF AbsEnterClause(st, Caller) = "ok" THEN "ok"
     ELSE "not-serialized: the member touched the terminal while another thread was inside a function synchronized with lock_tty"
-  ELSE IF e.k \in {"call", "wait", "return"} THEN "ok"
+  ELSE IF e.k \in {"call", "wait", "return", "gap"} THEN "ok"
   ELSE "malformed: unknown event"
 
 Apply(st, e) ==
@@ -47,12 +57,13 @@ EndClause ==
   ELSE IF ~returned THEN "Progress: the member never returned after the lock was released"
   ELSE IF ~touched THEN "vacuous: the member never reached its terminal-touching layer"
   ELSE IF s # AbsFree THEN "malformed: the holder never released"
+  ELSE IF Tr.kind = "atomic" /\ ~intruded THEN "vacuous: no other thread got the terminal during or after the call"
   ELSE "ok"
 
 Init ==
   /\ tid \in 1..Len(Traces)
   /\ l = 0 /\ s = AbsFree /\ verdict = "ok" /\ at = 0
-  /\ touched = FALSE /\ waited = FALSE /\ returned = FALSE
+  /\ touched = FALSE /\ waited = FALSE /\ returned = FALSE /\ intruded = FALSE
 
 Consume ==
   /\ l < N
@@ -62,9 +73,10 @@ Consume ==
        /\ verdict' = v
        /\ at' = IF verdict = "ok" /\ v # "ok" THEN l + 1 ELSE at
        /\ s' = Apply(s, e)
-       /\ touched' = (touched \/ e.k = "touch")
+       /\ touched' = (touched \/ (e.k = "touch" /\ e.t = 2))
        /\ waited' = (waited \/ (e.k = "wait" /\ s.h = Holder))
        /\ returned' = (returned \/ e.k = "return")
+       /\ intruded' = (intruded \/ (e.k = "touch" /\ e.t = 3 /\ touched))
   /\ UNCHANGED tid
 
 Finish ==
@@ -73,14 +85,14 @@ Finish ==
   /\ LET v == IF verdict # "ok" THEN verdict ELSE EndClause IN
        /\ verdict' = v
        /\ at' = IF verdict = "ok" /\ v # "ok" THEN N + 1 ELSE at
-  /\ UNCHANGED <<tid, s, touched, waited, returned>>
+  /\ UNCHANGED <<tid, s, touched, waited, returned, intruded>>
 
 Next == Consume \/ Finish
 Spec == Init /\ [][Next]_vars
 
 Done == l = N + 1
 Report ==
-  Done => PrintT(<<"VERDICT", ToJson([tid |-> tid, verdict |-> verdict, at |-> at, member |-> Tr.member,
+  Done => PrintT(<<"VERDICT", ToJson([tid |-> tid, verdict |-> verdict, at |-> at, member |-> Tr.member, kind |-> Tr.kind,
                                         waited |-> waited,
                                         missing |-> SyncNames \ {Traces[i].member : i \in 1..Len(Traces)}])>>)
 =============================================================================
